@@ -329,11 +329,17 @@ theorem full_message_ignores_cell (tag : Nat) (v : Val) (d : Nat)
     with the cell `none`; the result is a function of (schema, target type, tag, bytes) and of nothing else —
     no call made before can influence it. -/
 theorem decoder_fresh (S : Schema) (d tag : Nat) (bs : Bytes) :
-    unmarshal S d tag bs = (do
+    unmarshal S d tag bs =
+      if S.dyns.length ≤ d then .err .other else unmarshalWith S (decFuel bs.length) d tag bs := by
+  unfold unmarshal; rfl
+
+/-- 3a'. … and the decoder run itself starts `decK` from the empty cell `none` (for any fuel). -/
+theorem decoder_fresh_cell (S : Schema) (fuel d tag : Nat) (bs : Bytes) :
+    unmarshalWith S fuel d tag bs = (do
       let c ← Cur.start bs
       let dy := S.dyn d
       let k := match dy.kind with | .ptr k' => k' | k' => k'
-      let (x, _, _) ← decK S (bs.length + 8) k (if tag = 0 then dy.defTag else tag) c none
+      let (x, _, _) ← decK S fuel k (if tag = 0 then dy.defTag else tag) c none
       pure (match dy.kind with | .ptr _ => Val.ptr (some x) | _ => x)) := rfl
 
 /-- 3b. `MarshalTTLV` constructs a new Encoder: it is `encode` from the cell `none` followed by `Bytes`. -/
